@@ -51,7 +51,7 @@ def run(chk: Check) -> int:
     col = I.Collector(chk, "C19", oracles, nontrivial)
     for name, doc in I.corpus_docs("C19"):
         col.add(I.rerun(doc), name)
-    n = 600 if chk.quick else 8000
+    n = 1500 if chk.quick else 10000
     for k in range(n):
         if col.enough():
             break
@@ -60,7 +60,7 @@ def run(chk: Check) -> int:
         spec = I.random_spec(rng, faults=rng.random() < 0.1, cancel=True, learner=lk, log=True, big=not chk.quick)
         col.add(I.run_case(spec, I.RandomSched(rng)), f"seed{chk.seed}/{k}")
     exh = {}
-    plans = [(kind, 2, 4, 3) for kind in I.KINDS] if chk.quick else \
+    plans = [(kind, nt, 4, 3) for kind in I.KINDS for nt in (2, 3)] if chk.quick else \
         [(kind, nt, T, g) for kind in I.KINDS for nt in (1, 2, 3) for T in (2, 4, 6) for g in (T, T - 1)]
     for lk in (["Learner1D"] if chk.quick else ["Learner1D", "SequenceLearner", "AverageLearner", "mock"]):
         for kind, nt, T, g in plans:
